@@ -460,7 +460,9 @@ func sessionsCase(r *common.Run, c int) {
 			r.Violation("sessions:snapshot-index", fmt.Sprintf("case %d cut %d: snapshot index %d", c, idx, ss.Index), wit(0, idx, "", fmt.Sprint(idx), fmt.Sprint(ss.Index)))
 			return
 		}
-		// twin
+		// twin: half of them restart from the snapshot (empty replica), the others are live
+		// replicas that lag behind - they applied a prefix of the log, hold its sessions, and are
+		// caught up by installing the snapshot (sessions closed or evicted in between must go)
 		ut := newRegSM()
 		sst := newMemSnapshotter()
 		sst.cur, sst.data[ss.Index] = ss, ssb.data[ss.Index]
@@ -468,6 +470,13 @@ func sessionsCase(r *common.Run, c int) {
 		task := rsm.Task{Recover: true, Index: idx}
 		if rng.Intn(2) == 0 {
 			task = rsm.Task{Recover: true, Initial: true}
+		} else if i > 0 {
+			behind := rng.Intn(i + 1)
+			if err := t.feed(copyEntries(ents[:behind]), randSizes(rng)); err != nil {
+				r.Violation("sessions:apply-error", fmt.Sprintf("case %d lagging twin of cut %d: %v", c, idx, err), wit(0, idx, "", "", err.Error()))
+				return
+			}
+			r.Count("lagging_live_twins", 1)
 		}
 		rs, err := t.sm.Recover(task)
 		if err != nil || rs.Index != idx {
